@@ -478,6 +478,7 @@ Proof.
   destruct a; cbn [act_section]; try (split; apply no_setst_nil).
   - apply fsm_core_wf.
   - apply teardown_wf.
+  - destruct (estate_eqb st sDONE || estate_eqb st s); split; apply no_setst_nil.
 Qed.
 
 Lemma act_section_commit a st d u :
@@ -492,225 +493,110 @@ Proof.
   - apply teardown_commit in Hc. destruct Hc as [Hd [Hu Hne]]. subst d u.
     repeat split; try assumption; try reflexivity.
     destruct st; cbn; try reflexivity. contradiction Hne. reflexivity.
+  - (* forced state: ERROR, under the mutex, refused on DONE *)
+    subst s. destruct (estate_eqb st sDONE) eqn:E1; [cbn in Hc; discriminate|].
+    destruct (estate_eqb st sERROR) eqn:E2; cbn in Hc; [discriminate|].
+    inversion Hc; subst d u. apply estate_eqb_neq in E1.
+    split; [destruct st; cbn in *; try reflexivity; try discriminate; contradiction E1; reflexivity|].
+    split; [exact E1|]. split; intro H; discriminate H.
 Qed.
+
+(* the section of a locked action in DONE: nothing runs, nothing is written *)
+Lemma act_section_done a :
+  act_ok a -> sec_commit (act_section tbl bf o a sDONE) = None /\ sec_trace (act_section tbl bf o a sDONE) = [].
+Proof.
+  destruct a; cbn [act_section act_ok]; intro Hok; try (split; reflexivity).
+  unfold fsm_section, fsm_core.
+  destruct (lookup_dst tbl ev sDONE) as [d|] eqn:Hl; [|split; reflexivity].
+  destruct (api_dst_not_done _ _ _ Hok Hl) as [_ H]. contradiction H. reflexivity.
+Qed.
+
+Definition locked (a : act) : bool := match a with ATry _ | ATeardown _ | AForce _ => true | _ => false end.
+
+Lemma exec_locked a w :
+  locked a = true ->
+  exec_act tbl bf o a w =
+  (mkWorld (sec_final (w_st w) (act_section tbl bf o a (w_st w)))
+           (w_listed w && negb (sec_unlists (act_section tbl bf o a (w_st w)))),
+   RB (sec_err (act_section tbl bf o a (w_st w))), sec_trace (act_section tbl bf o a (w_st w))).
+Proof. destruct a; cbn [locked]; intro H; try discriminate; reflexivity. Qed.
 
 (* one action: what it does to the world and to the trace *)
 Lemma step_spec a w :
   act_ok a -> J w ->
-  (match a with AForce _ => w_st w <> sDONE | _ => True end) ->
   edges_ok (trace_edges (w_st w) (step_t a w)) = true /\
   trace_final (w_st w) (step_t a w) = w_st (step_w a w) /\
   J (step_w a w) /\
   (w_listed w = false -> w_listed (step_w a w) = false).
 Proof.
-  intros Hok HJ Hforce. unfold step_t, step_w.
-  destruct a; cbn [exec_act fst snd].
-  - (* lookup *) cbn. repeat split; try assumption; tauto.
-  - (* try *)
-    pose proof (act_section_wf (ATry ev) (w_st w)) as Hwf.
+  intros Hok HJ. unfold step_t, step_w.
+  destruct (locked a) eqn:Hl.
+  - rewrite (exec_locked a w Hl). cbn [fst snd].
+    pose proof (act_section_wf a (w_st w)) as Hwf.
     destruct (sec_trace_edges (w_st w) _ Hwf) as [He Hf].
     rewrite He, Hf. cbn [w_st w_listed].
     split.
-    { destruct (sec_commit (act_section tbl bf o (ATry ev) (w_st w))) as [[d u]|] eqn:Hc; [|reflexivity].
+    { destruct (sec_commit (act_section tbl bf o a (w_st w))) as [[d u]|] eqn:Hc; [|reflexivity].
       destruct (act_section_commit _ _ _ _ Hok Hc) as [Hd _]. cbn. unfold edge_ok. cbn [fst snd].
       rewrite Hd. rewrite orb_true_r. reflexivity. }
     split; [reflexivity|].
     split.
     { unfold J, sec_final, sec_unlists. cbn [w_st w_listed].
-      destruct (sec_commit (act_section tbl bf o (ATry ev) (w_st w))) as [[d u]|] eqn:Hc.
+      destruct (sec_commit (act_section tbl bf o a (w_st w))) as [[d u]|] eqn:Hc.
       - destruct (act_section_commit _ _ _ _ Hok Hc) as [_ [_ [Hdu _]]].
         intro Hd. rewrite (Hdu Hd). cbn. apply andb_false_r.
       - intro Hd. rewrite (HJ Hd). reflexivity. }
-    intro Hl. rewrite Hl. reflexivity.
-  - (* teardown *)
-    pose proof (act_section_wf (ATeardown force) (w_st w)) as Hwf.
-    destruct (sec_trace_edges (w_st w) _ Hwf) as [He Hf].
-    rewrite He, Hf. cbn [w_st w_listed].
-    split.
-    { destruct (sec_commit (act_section tbl bf o (ATeardown force) (w_st w))) as [[d u]|] eqn:Hc; [|reflexivity].
-      destruct (act_section_commit _ _ _ _ Hok Hc) as [Hd _]. cbn. unfold edge_ok. cbn [fst snd].
-      rewrite Hd. rewrite orb_true_r. reflexivity. }
-    split; [reflexivity|].
-    split.
-    { unfold J, sec_final, sec_unlists. cbn [w_st w_listed].
-      destruct (sec_commit (act_section tbl bf o (ATeardown force) (w_st w))) as [[d u]|] eqn:Hc.
-      - destruct (act_section_commit _ _ _ _ Hok Hc) as [_ [_ [Hdu _]]].
-        intro Hd. rewrite (Hdu Hd). cbn. apply andb_false_r.
-      - intro Hd. rewrite (HJ Hd). reflexivity. }
-    intro Hl. rewrite Hl. reflexivity.
-  - (* force *)
-    cbn in Hok. subst s. cbn [w_st w_listed]. unfold force_items.
-    destruct (estate_eqb (w_st w) sERROR) eqn:E.
-    + apply estate_eqb_eq in E. cbn.
-      split; [reflexivity|]. split; [exact E|].
-      split; [unfold J; cbn; intro Hd; discriminate Hd|tauto].
-    + cbn. unfold edge_ok. cbn [fst snd]. rewrite E. cbn [orb].
-      split.
-      { destruct (w_st w); cbn in *; try reflexivity; try discriminate. contradiction Hforce. reflexivity. }
-      split; [reflexivity|]. split; [unfold J; cbn; intro Hd; discriminate Hd|tauto].
-  - (* read *) cbn. repeat split; try assumption; tauto.
+    intro Hli. rewrite Hli. reflexivity.
+  - destruct a; try discriminate Hl; cbn; repeat split; try assumption; tauto.
 Qed.
 
-(* never forcing a state on an environment that is DONE *)
-Fixpoint safe_run (p : prog) (w : world) : Prop :=
-  match p with
-  | Ret _ _ => True
-  | Do a k =>
-    (match a with AForce _ => w_st w <> sDONE | _ => True end) /\
-    safe_run (k (step_r a w)) (step_w a w)
-  end.
-
 Lemma run_prog_graph p :
-  prog_ok p -> forall w, J w -> safe_run p w ->
+  prog_ok p -> forall w, J w ->
   edges_ok (trace_edges (w_st w) (snd (run_prog tbl bf o p w))) = true /\
   trace_final (w_st w) (snd (run_prog tbl bf o p w)) = w_st (fst (fst (run_prog tbl bf o p w))) /\
   J (fst (fst (run_prog tbl bf o p w))) /\
   (w_listed w = false -> w_listed (fst (fst (run_prog tbl bf o p w))) = false).
 Proof.
-  induction 1 as [c s|a k Ha Hk IH]; intros w HJ Hsafe.
+  induction 1 as [c s|a k Ha Hk IH]; intros w HJ.
   - cbn. repeat split; try assumption; tauto.
-  - rewrite run_prog_do. cbn [fst snd]. cbn [safe_run] in Hsafe. destruct Hsafe as [Hf Hs].
-    destruct (step_spec a w Ha HJ Hf) as [E1 [F1 [J1 L1]]].
-    destruct (IH (step_r a w) (step_w a w) J1 Hs) as [E2 [F2 [J2 L2]]].
+  - rewrite run_prog_do. cbn [fst snd].
+    destruct (step_spec a w Ha HJ) as [E1 [F1 [J1 L1]]].
+    destruct (IH (step_r a w) (step_w a w) J1) as [E2 [F2 [J2 L2]]].
     rewrite trace_edges_app, trace_final_app, F1.
     split.
     { unfold edges_ok in *. rewrite forallb_app, E1, E2. reflexivity. }
     split; [exact F2|]. split; [exact J2|]. intro Hl. apply L2, L1, Hl.
 Qed.
 
-(* the state is not DONE after an action if it was not before, except for a teardown *)
-Lemma step_try_not_done ev w :
-  mem_event ev env_transition_names = true -> w_st w <> sDONE -> w_st (step_w (ATry ev) w) <> sDONE.
+(* DONE is terminal for every action of every caller: nothing runs, nothing is written *)
+Lemma step_done a w :
+  act_ok a -> w_st w = sDONE -> w_st (step_w a w) = sDONE /\ step_t a w = [].
 Proof.
-  intros Hn Hne. unfold step_w. cbn [exec_act fst w_st]. unfold sec_final.
-  destruct (sec_commit (act_section tbl bf o (ATry ev) (w_st w))) as [[d u]|] eqn:Hc; [|exact Hne].
-  cbn [act_section] in Hc. unfold fsm_section in Hc. apply fsm_core_commit in Hc.
-  destruct Hc as [Hl _]. destruct (api_dst_not_done _ _ _ Hn Hl) as [Hd _]. exact Hd.
+  intros Hok Hd. unfold step_t, step_w.
+  destruct (locked a) eqn:Hl.
+  - rewrite (exec_locked a w Hl). cbn [fst snd w_st]. rewrite Hd.
+    destruct (act_section_done a Hok) as [Hc Ht]. unfold sec_final. rewrite Hc, Ht. split; reflexivity.
+  - destruct a; try discriminate Hl; cbn; split; try assumption; reflexivity.
 Qed.
 
-Lemma step_try_listed ev w : w_listed (step_w (ATry ev) w) = w_listed w.
+Lemma run_prog_done p :
+  prog_ok p -> forall w, w_st w = sDONE ->
+  w_st (fst (fst (run_prog tbl bf o p w))) = sDONE /\ snd (run_prog tbl bf o p w) = [].
 Proof.
-  unfold step_w. cbn [exec_act fst w_listed]. unfold sec_unlists.
-  destruct (sec_commit (act_section tbl bf o (ATry ev) (w_st w))) as [[d u]|] eqn:Hc; [|apply andb_true_r].
-  cbn [act_section] in Hc. unfold fsm_section in Hc. apply fsm_core_commit in Hc.
-  destruct Hc as [_ [_ Hu]]. subst u. apply andb_true_r.
+  induction 1 as [c s|a k Ha Hk IH]; intros w Hd.
+  - cbn. split; [exact Hd|reflexivity].
+  - rewrite run_prog_do. cbn [fst snd].
+    destruct (step_done a w Ha Hd) as [D1 T1].
+    destruct (IH (step_r a w) (step_w a w) D1) as [D2 T2].
+    rewrite T1, T2. split; [exact D2|reflexivity].
 Qed.
-
-Lemma step_silent_w a w :
-  match a with ALookup | ARead => True | _ => False end -> step_w a w = w.
-Proof. destruct a; cbn; tauto. Qed.
 
 Lemma listed_not_done w : J w -> w_listed w = true -> w_st w <> sDONE.
 Proof. intros HJ Hl Hd. rewrite (HJ Hd) in Hl. discriminate. Qed.
 
-(* programs without a forced state are always safe *)
-Fixpoint no_force (p : prog) : Prop :=
-  match p with
-  | Ret _ _ => True
-  | Do a k => (match a with AForce _ => False | _ => True end) /\ forall r, no_force (k r)
-  end.
-
-Lemma no_force_safe p : forall w, no_force p -> safe_run p w.
-Proof.
-  induction p as [c s|a k IH]; intros w H; cbn; [exact I|].
-  destruct H as [Ha Hk]. split; [destruct a; tauto|]. apply IH, Hk.
-Qed.
-
-Lemma p_dtc_no_force f : no_force (p_dtc f).
-Proof.
-  unfold p_dtc. cbn [no_force]. split; [exact I|]. intro r.
-  destruct (negb (res_b r)).
-  - destruct f; cbn [no_force]; [exact I|]. split; [exact I|]. intro r2.
-    destruct (negb (res_b r2)); cbn [no_force]; [exact I|]. split; [exact I|]. intro; exact I.
-  - cbn [no_force]. split; [exact I|]. intro e. destruct (negb (res_b e)); cbn [no_force]; [exact I|].
-    destruct f; cbn [no_force]; [exact I|]. split; [exact I|]. intro r2.
-    destruct (negb (res_b r2)); cbn [no_force]; [exact I|]. split; [exact I|]. intro; exact I.
-Qed.
-
-Lemma p_destroy_no_force f a : no_force (p_destroy f a).
-Proof.
-  unfold p_destroy. cbn [no_force]. split; [exact I|]. intro r.
-  destruct (negb (res_b r)); [exact I|].
-  destruct f; [apply p_dtc_no_force|].
-  assert (Hrest : no_force
-    (Do ARead (fun s =>
-        if negb (mem_state (res_s s) env_states_for_destroy) then p_dtc true else
-        Do ARead (fun s2 =>
-          if estate_eqb (res_s s2) sCONFIGURED then
-            Do (ATry eRESET) (fun e => if res_b e then p_dtc true else p_dtc false)
-          else p_dtc false)))).
-  { cbn [no_force]. split; [exact I|]. intro s.
-    destruct (negb (mem_state (res_s s) env_states_for_destroy)); [apply p_dtc_no_force|].
-    cbn [no_force]. split; [exact I|]. intro s2.
-    destruct (estate_eqb (res_s s2) sCONFIGURED); [|apply p_dtc_no_force].
-    cbn [no_force]. split; [exact I|]. intro e. destruct (res_b e); apply p_dtc_no_force. }
-  destruct a; [|exact Hrest].
-  cbn [no_force]. split; [exact I|]. intro s.
-  destruct (estate_eqb (res_s s) sRUNNING); [|exact Hrest].
-  cbn [no_force]. split; [exact I|]. intro e. destruct (res_b e); [apply p_dtc_no_force|exact Hrest].
-Qed.
-
+(* requests made by a holder of the *Environment (they do not go through the manager's map) *)
 Definition handle_req (q : req) : bool :=
   match q with QWatcher | QAutoStop | QTry _ => true | _ => false end.
-
-Lemma reply_safe c w : safe_run (reply c) w.
-Proof. unfold reply. cbn. tauto. Qed.
-
-(* every request is safe on a listed environment; the requests that start with a lookup are safe
-   on any environment *)
-Lemma prog_of_safe q w :
-  req_ok q -> J w -> (handle_req q = true -> w_listed w = true) -> safe_run (prog_of q) w.
-Proof.
-  intros Hq HJ Hh. destruct q; cbn [prog_of].
-  - (* control *)
-    unfold p_control. cbn [safe_run]. split; [exact I|].
-    rewrite (step_silent_w ALookup w I). unfold step_r at 1. cbn [exec_act fst snd res_b].
-    destruct (w_listed w) eqn:Hl; cbn [negb]; [|exact I].
-    destruct (make_transition ot) as [ev|] eqn:E; [|exact I].
-    destruct (make_transition_names ot ev E) as [Hn _].
-    pose proof (listed_not_done w HJ Hl) as Hnd.
-    cbn [safe_run]. split; [exact I|].
-    destruct (negb (res_b (step_r (ATry ev) w))); [apply reply_safe|].
-    cbn [safe_run]. split; [exact I|].
-    destruct (negb (res_b (step_r (ATry eGO_ERROR) (step_w (ATry ev) w)))); [apply reply_safe|].
-    cbn [safe_run]. split; [|apply reply_safe].
-    apply step_try_not_done; [exact names_goerror|]. apply step_try_not_done; assumption.
-  - apply no_force_safe, p_destroy_no_force.
-  - apply no_force_safe. unfold p_teardown. cbn [no_force]. split; [exact I|]. intro r.
-    destruct (negb (res_b r)); cbn [no_force]; [exact I|]. split; [exact I|]. intro; exact I.
-  - (* watcher *)
-    specialize (Hh eq_refl). pose proof (listed_not_done w HJ Hh) as Hnd.
-    unfold p_watcher. cbn [safe_run]. split; [exact I|].
-    destruct (negb (res_b (step_r (ATry eGO_ERROR) w))); [exact I|].
-    cbn [safe_run]. split; [exact I|].
-    rewrite (step_silent_w ARead _ I).
-    destruct (estate_eqb (res_s (step_r ARead (step_w (ATry eGO_ERROR) w))) sERROR); [exact I|].
-    cbn [safe_run]. split; [|exact I]. apply step_try_not_done; [exact names_goerror|exact Hnd].
-  - (* auto-stop *)
-    specialize (Hh eq_refl). pose proof (listed_not_done w HJ Hh) as Hnd.
-    unfold p_autostop. cbn [safe_run]. split; [exact I|].
-    destruct (negb (res_b (step_r (ATry eSTOP_ACTIVITY) w))); [exact I|].
-    cbn [safe_run]. split; [exact I|].
-    destruct (negb (res_b (step_r (ATry eGO_ERROR) (step_w (ATry eSTOP_ACTIVITY) w)))); [exact I|].
-    cbn [safe_run]. split; [|exact I].
-    apply step_try_not_done; [exact names_goerror|]. apply step_try_not_done; [exact names_stop|exact Hnd].
-  - (* ODC *)
-    unfold p_odc. cbn [safe_run]. split; [exact I|].
-    rewrite (step_silent_w ALookup w I). unfold step_r at 1. cbn [exec_act fst snd res_b].
-    destruct (w_listed w) eqn:Hl; cbn [negb]; [|exact I].
-    pose proof (listed_not_done w HJ Hl) as Hnd.
-    cbn [safe_run]. split; [exact I|]. rewrite (step_silent_w ARead w I).
-    destruct (negb (estate_eqb (res_s (step_r ARead w)) sRUNNING)); [exact I|].
-    cbn [safe_run]. split; [exact I|]. split; [exact I|].
-    rewrite (step_silent_w ARead _ I).
-    destruct (estate_eqb (res_s (step_r ARead (step_w (ATry eSTOP_ACTIVITY) w))) sERROR); [exact I|].
-    cbn [safe_run]. split; [exact I|]. split; [|exact I].
-    apply step_try_not_done; [exact names_goerror|]. apply step_try_not_done; [exact names_stop|exact Hnd].
-  - apply no_force_safe. unfold p_stoprun. cbn [no_force]. split; [exact I|]. intro r.
-    destruct (negb (res_b r)); cbn [no_force]; [exact I|]. split; [exact I|]. intro s.
-    destruct (negb (estate_eqb (res_s s) sRUNNING)); cbn [no_force]; [exact I|]. split; [exact I|]. intro; exact I.
-  - apply no_force_safe. unfold p_try. cbn [no_force]. split; [exact I|]. intro; exact I.
-Qed.
 
 End Seq.
 
@@ -729,43 +615,41 @@ Proof.
   destruct (run_seq r w1) as [w2 t2]. reflexivity.
 Qed.
 
-(* a history is safe when the requests made by a holder of the *Environment (watcher, auto-stop
-   timer, bare TryTransition) only happen while the environment is listed; requests that go
-   through the manager's map (every API request) are always safe *)
-Fixpoint seq_safe (l : list (req * oracle)) (w : world) : Prop :=
-  match l with
-  | [] => True
-  | (q, o) :: r => (handle_req q = true -> w_listed w = true) /\ seq_safe r (fst (fst (run_req o q w)))
-  end.
-
 Definition api_req (q : req) : Prop := handle_req q = false.
-
-Lemma api_seq_safe l : Forall (fun qo => api_req (fst qo)) l -> forall w, seq_safe l w.
-Proof.
-  induction 1 as [|[q o] r Hq Hr IH]; intro w; cbn [seq_safe]; [exact I|].
-  split; [|apply IH]. cbn in Hq. unfold api_req in Hq. intro H. congruence.
-Qed.
 
 Lemma api_req_ok q : api_req q -> req_ok q.
 Proof. destruct q; cbn; intro H; try exact I. discriminate. Qed.
 
+(* every state write of every sequential history, whoever the callers are (API requests, watcher,
+   auto-stop timer, holders of a stale handle), is an edge of the documented graph *)
 Lemma run_seq_graph l :
-  Forall (fun qo => req_ok (fst qo)) l -> forall w, J w -> seq_safe l w ->
+  Forall (fun qo => req_ok (fst qo)) l -> forall w, J w ->
   edges_ok (trace_edges (w_st w) (snd (run_seq l w))) = true /\
   trace_final (w_st w) (snd (run_seq l w)) = w_st (fst (run_seq l w)) /\
   J (fst (run_seq l w)).
 Proof.
-  induction 1 as [|[q o] r Hq Hr IH]; intros w HJ Hs.
+  induction 1 as [|[q o] r Hq Hr IH]; intros w HJ.
   - cbn. repeat split; try assumption.
-  - rewrite run_seq_cons. cbn [fst snd]. cbn [seq_safe] in Hs. destruct Hs as [Hh Hs].
-    cbn [fst] in Hq.
-    pose proof (prog_of_safe o q w Hq HJ Hh) as Hsafe.
-    destruct (run_prog_graph o (prog_of q) (prog_of_ok q Hq) w HJ Hsafe) as [E1 [F1 [J1 _]]].
+  - rewrite run_seq_cons. cbn [fst snd]. cbn [fst] in Hq.
+    destruct (run_prog_graph o (prog_of q) (prog_of_ok q Hq) w HJ) as [E1 [F1 [J1 _]]].
     rewrite <- run_req_eq in E1, F1, J1.
-    destruct (IH _ J1 Hs) as [E2 [F2 J2]].
+    destruct (IH _ J1) as [E2 [F2 J2]].
     rewrite trace_edges_app, trace_final_app, F1.
     split; [unfold edges_ok in *; rewrite forallb_app, E1, E2; reflexivity|].
     split; assumption.
+Qed.
+
+(* DONE is terminal for every history of every caller *)
+Lemma run_seq_done l :
+  Forall (fun qo => req_ok (fst qo)) l -> forall w, w_st w = sDONE ->
+  w_st (fst (run_seq l w)) = sDONE /\ snd (run_seq l w) = [].
+Proof.
+  induction 1 as [|[q o] r Hq Hr IH]; intros w Hd.
+  - cbn. split; [exact Hd|reflexivity].
+  - rewrite run_seq_cons. cbn [fst snd]. cbn [fst] in Hq.
+    destruct (run_prog_done o (prog_of q) (prog_of_ok q Hq) w Hd) as [D1 T1].
+    rewrite <- run_req_eq in D1, T1.
+    destruct (IH _ D1) as [D2 T2]. rewrite T1, T2. split; [exact D2|reflexivity].
 Qed.
 
 (* API requests on an environment that is not listed do nothing at all *)
@@ -779,15 +663,6 @@ Proof.
   - unfold p_teardown. cbn. rewrite Hl. cbn. split; reflexivity.
   - unfold p_odc. cbn. rewrite Hl. cbn. split; reflexivity.
   - unfold p_stoprun. cbn. rewrite Hl. cbn. split; reflexivity.
-Qed.
-
-Lemma run_seq_unlisted l :
-  Forall (fun qo => api_req (fst qo)) l -> forall w, w_listed w = false ->
-  run_seq l w = (w, []).
-Proof.
-  induction 1 as [|[q o] r Hq Hr IH]; intros w Hl; [reflexivity|].
-  rewrite run_seq_cons. cbn [fst] in Hq.
-  destruct (api_unlisted_inert o q w Hq Hl) as [Hw Ht]. rewrite Hw, Ht, (IH w Hl). reflexivity.
 Qed.
 
 (* ------------------------------------------------------------------------------------------ *)
@@ -812,10 +687,33 @@ Proof.
   cbn [exec_act act_section]. rewrite fsm_section_unlists. cbn [negb]. rewrite andb_true_r. reflexivity.
 Qed.
 
-(* the GO_ERROR fallback followed by the forced state always ends in ERROR, whatever the state *)
+(* Environment.ForceError on an environment that is not DONE: ERROR, at most one state write *)
+Definition force_trace (st : estate) : list titem := if estate_eqb st sERROR then [] else [SetSt sERROR].
+
+Lemma exec_force o w :
+  w_st w <> sDONE ->
+  exec_act env_events api_bodyful o (AForce sERROR) w = (mkWorld sERROR (w_listed w), RB false, force_trace (w_st w)).
+Proof.
+  intro Hd. cbn [exec_act act_section]. apply estate_eqb_neq in Hd. rewrite Hd. cbn [orb]. unfold force_trace.
+  destruct (estate_eqb (w_st w) sERROR) eqn:E.
+  - apply estate_eqb_eq in E. cbn. rewrite andb_true_r, E. reflexivity.
+  - cbn. rewrite andb_true_r. reflexivity.
+Qed.
+
+Lemma try_not_done o ev st :
+  mem_event ev env_transition_names = true -> st <> sDONE ->
+  sec_final st (fsm_section env_events api_bodyful o st ev) <> sDONE.
+Proof.
+  intros Hn Hd. unfold sec_final.
+  destruct (sec_commit (fsm_section env_events api_bodyful o st ev)) as [[d u]|] eqn:Hc; [|exact Hd].
+  unfold fsm_section in Hc. apply fsm_core_commit in Hc. destruct Hc as [Hl _].
+  destruct (api_dst_not_done _ _ _ Hn Hl) as [H _]. exact H.
+Qed.
+
+(* the GO_ERROR fallback followed, when it fails, by the forced state *)
 Definition fallback_trace (o : oracle) (st : estate) : list titem :=
   let sec := fsm_section env_events api_bodyful o st eGO_ERROR in
-  sec_trace sec ++ (if sec_err sec then force_items (sec_final st sec) sERROR else []).
+  sec_trace sec ++ (if sec_err sec then force_trace (sec_final st sec) else []).
 
 Lemma goerror_final o st :
   sec_err (fsm_section env_events api_bodyful o st eGO_ERROR) = false ->
@@ -827,25 +725,27 @@ Qed.
 
 (* what ControlEnvironment does once the environment was found and the operation is known *)
 Lemma control_spec o ot ev w :
-  w_listed w = true -> make_transition ot = Some ev ->
+  w_listed w = true -> w_st w <> sDONE -> make_transition ot = Some ev ->
   let sec := fsm_section env_events api_bodyful o (w_st w) ev in
   let st1 := sec_final (w_st w) sec in
   run_req o (QControl ot) w =
   if sec_err sec
-  then (mkWorld sERROR true,
-        (3, Some sERROR),
-        sec_trace sec ++ fallback_trace o st1)
+  then (mkWorld sERROR true, (3, Some sERROR), sec_trace sec ++ fallback_trace o st1)
   else (mkWorld st1 true, (0, Some st1), sec_trace sec).
 Proof.
-  intros Hl Hm. cbv zeta. unfold run_req. cbn [prog_of]. unfold p_control.
+  intros Hl Hd Hm. cbv zeta. unfold run_req. cbn [prog_of]. unfold p_control.
+  destruct (make_transition_names ot ev Hm) as [Hn _].
   cbn [run_prog]. cbn [exec_act]. rewrite Hl. cbn [res_b negb]. rewrite Hm.
   cbn [run_prog]. rewrite exec_try. cbn [res_b].
   destruct (sec_err (fsm_section env_events api_bodyful o (w_st w) ev)) eqn:E1; cbn [negb].
   - cbn [run_prog]. rewrite exec_try. cbn [res_b w_st w_listed].
     unfold fallback_trace.
+    pose proof (try_not_done o ev (w_st w) Hn Hd) as Hd1.
+    pose proof (try_not_done o eGO_ERROR _ names_goerror Hd1) as Hd2.
     destruct (sec_err (fsm_section env_events api_bodyful o
                (sec_final (w_st w) (fsm_section env_events api_bodyful o (w_st w) ev)) eGO_ERROR)) eqn:E2; cbn [negb].
-    + unfold reply. cbn [run_prog exec_act w_st w_listed res_s]. rewrite !app_nil_r, Hl. reflexivity.
+    + cbn [run_prog]. rewrite exec_force by (cbn [w_st]; exact Hd2).
+      unfold reply. cbn [run_prog exec_act w_st w_listed res_s]. rewrite !app_nil_r, Hl. reflexivity.
     + unfold reply. cbn [run_prog exec_act w_st w_listed res_s]. rewrite (goerror_final _ _ E2).
       rewrite !app_nil_r, Hl. reflexivity.
   - unfold reply. cbn [run_prog exec_act w_st w_listed res_s]. rewrite !app_nil_r, Hl. reflexivity.
@@ -869,8 +769,8 @@ Proof.
   cbn. intro H. repeat (destruct H as [H|H]; [discriminate|]). destruct H.
 Qed.
 
-Lemma force_items_setst st s x : In x (force_items st s) -> x = SetSt s.
-Proof. unfold force_items. destruct (estate_eqb st s); cbn; [tauto|]. intros [H|[]]. congruence. Qed.
+Lemma force_trace_setst st x : In x (force_trace st) -> x = SetSt sERROR.
+Proof. unfold force_trace. destruct (estate_eqb st sERROR); cbn; [tauto|]. intros [H|[]]. congruence. Qed.
 
 (* the fallback runs GO_ERROR's hooks only and never sends a task command *)
 Lemma fallback_items o st x :
@@ -882,7 +782,7 @@ Proof.
     + intros e E. subst. unfold fsm_section in H. revert H. apply fsm_core_no_body. reflexivity.
     + intros e E. unfold fsm_section in H. eapply fsm_core_items; eassumption.
   - destruct (sec_err (fsm_section env_events api_bodyful o st eGO_ERROR)); [|destruct H].
-    apply force_items_setst in H. subst. split; intros e E; discriminate.
+    apply force_trace_setst in H. subst. split; intros e E; discriminate.
 Qed.
 
 (* "not legal in the current state", as documented, is "not enabled in the event table" *)
@@ -895,18 +795,19 @@ Proof.
 Qed.
 
 Lemma control_illegal_inert o ot ev w :
-  w_listed w = true -> make_transition ot = Some ev -> doc_op ot (w_st w) = None ->
+  J w -> w_listed w = true -> make_transition ot = Some ev -> doc_op ot (w_st w) = None ->
   (forall x, In x (snd (run_req o (QControl ot) w)) -> own_item ev x = false) /\
   (forall e, ~ In (Body e) (snd (run_req o (QControl ot) w))) /\
   fst (fst (run_req o (QControl ot) w)) = mkWorld sERROR true /\
   snd (snd (fst (run_req o (QControl ot) w))) = Some sERROR /\
   fst (snd (fst (run_req o (QControl ot) w))) = 3.
 Proof.
-  intros Hl Hm Hd. apply (illegal_is_disabled ot ev (w_st w) Hm) in Hd.
+  intros HJ Hl Hm Hd. apply (illegal_is_disabled ot ev (w_st w) Hm) in Hd.
+  pose proof (listed_not_done w HJ Hl) as Hnd.
   destruct (make_transition_names ot ev Hm) as [_ Hne].
   assert (Hsec : fsm_section env_events api_bodyful o (w_st w) ev = mkSec [] None [] true)
     by (unfold fsm_section; apply fsm_core_disabled; exact Hd).
-  rewrite (control_spec o ot ev w Hl Hm). rewrite Hsec.
+  rewrite (control_spec o ot ev w Hl Hnd Hm). rewrite Hsec.
   cbn [sec_err sec_final sec_trace sec_pre sec_commit sec_post app fst snd].
   split; [|split; [|split; [|split]]].
   - intros x Hx. destruct (own_item ev x) eqn:E; [|reflexivity].
@@ -919,26 +820,26 @@ Proof.
 Qed.
 
 (* a first TryTransition that returns an error: the environment ends in ERROR, which is also the
-   state reported in the reply *)
+   state reported in the reply, and the caller gets Aborted *)
 Lemma control_failed_is_error o ot ev w :
-  w_listed w = true -> make_transition ot = Some ev ->
+  J w -> w_listed w = true -> make_transition ot = Some ev ->
   sec_err (fsm_section env_events api_bodyful o (w_st w) ev) = true ->
   fst (fst (run_req o (QControl ot) w)) = mkWorld sERROR true /\
   snd (snd (fst (run_req o (QControl ot) w))) = Some sERROR /\
   fst (snd (fst (run_req o (QControl ot) w))) = 3.
 Proof.
-  intros Hl Hm He. rewrite (control_spec o ot ev w Hl Hm). rewrite He. cbn [fst snd].
+  intros HJ Hl Hm He. rewrite (control_spec o ot ev w Hl (listed_not_done w HJ Hl) Hm). rewrite He. cbn [fst snd].
   split; [reflexivity|]. split; reflexivity.
 Qed.
 
 (* a first TryTransition that returns no error: the documented destination, reported as such *)
 Lemma control_success_documented o ot ev w :
-  w_listed w = true -> make_transition ot = Some ev ->
+  J w -> w_listed w = true -> make_transition ot = Some ev ->
   sec_err (fsm_section env_events api_bodyful o (w_st w) ev) = false ->
   exists d, doc_op ot (w_st w) = Some d /\
             fst (run_req o (QControl ot) w) = (mkWorld d true, (0, Some d)).
 Proof.
-  intros Hl Hm He. rewrite (control_spec o ot ev w Hl Hm). rewrite He. cbn [fst snd].
+  intros HJ Hl Hm He. rewrite (control_spec o ot ev w Hl (listed_not_done w HJ Hl) Hm). rewrite He. cbn [fst snd].
   unfold fsm_section in *. apply fsm_core_success in He. destruct He as [d [Hlk Hc]].
   exists d. split.
   - rewrite make_transition_documented in Hm. rewrite <- (table_is_documented_ops ot ev _ Hm). exact Hlk.
@@ -958,22 +859,8 @@ Proof.
   - cbn. tauto.
 Qed.
 
-(* ------------------------------------------------------------------------------------------ *)
-(* DONE is terminal for histories of API requests *)
-Lemma api_done_terminal l w :
-  Forall (fun qo => api_req (fst qo)) l -> J w -> w_st w = sDONE -> run_seq l w = (w, []).
-Proof. intros Hl HJ Hd. apply run_seq_unlisted; [exact Hl|]. apply HJ, Hd. Qed.
-
 Lemma api_all_ok l : Forall (fun qo : req * oracle => api_req (fst qo)) l -> Forall (fun qo => req_ok (fst qo)) l.
 Proof. intro H. eapply Forall_impl; [|exact H]. intros a Ha. apply api_req_ok. exact Ha. Qed.
-
-(* every state change of every sequential history of API requests is an edge of the documented graph *)
-Lemma api_seq_graph l w :
-  Forall (fun qo => api_req (fst qo)) l -> J w ->
-  edges_ok (trace_edges (w_st w) (snd (run_seq l w))) = true /\
-  trace_final (w_st w) (snd (run_seq l w)) = w_st (fst (run_seq l w)) /\
-  J (fst (run_seq l w)).
-Proof. intros Hl HJ. apply run_seq_graph; [apply api_all_ok; exact Hl|exact HJ|apply api_seq_safe; exact Hl]. Qed.
 
 Lemma J_listed st : J (mkWorld st true) -> st <> sDONE.
 Proof. intros H E. specialize (H E). discriminate. Qed.
